@@ -185,14 +185,25 @@ where
         vars
     }
 
+    /// Collects the variables that occur in the term `v`, at any depth of a list.
+    fn variables(v: &LTerm<U, E>, variables: &mut Vec<LTerm<U, E>>) {
+        match v.as_ref() {
+            LTermInner::Var(_, _) => variables.push(v.clone()),
+            LTermInner::Cons(head, tail) => {
+                SMap::variables(head, variables);
+                SMap::variables(tail, variables);
+            }
+            _ => (),
+        }
+    }
+
     /// Returns a set of variables operands referencesd by the substitution
     pub fn operands(&self) -> Vec<LTerm<U, E>> {
         let mut operands = vec![];
         for (k, v) in self.0.iter() {
             operands.push(k.clone());
-            if v.is_var() {
-                operands.push(v.clone());
-            }
+            // A variable nested in a list value is referenced by the substitution, too.
+            SMap::variables(v, &mut operands);
         }
         operands
     }
